@@ -308,12 +308,12 @@ structure FtDoc where
 
 def FtDoc.zero : FtDoc := ⟨none, [], .int 0⟩
 
-def sTotal : Bytes := "total_results".toUTF8.toList
-def sResults : Bytes := "results".toUTF8.toList
-def sError : Bytes := "error".toUTF8.toList
-def sId : Bytes := "id".toUTF8.toList
-def sExtra : Bytes := "extra_attributes".toUTF8.toList
-def sScore : Bytes := "score".toUTF8.toList
+def sTotal : Bytes := [116, 111, 116, 97, 108, 95, 114, 101, 115, 117, 108, 116, 115]  -- "total_results"
+def sResults : Bytes := [114, 101, 115, 117, 108, 116, 115]  -- "results"
+def sError : Bytes := [101, 114, 114, 111, 114]  -- "error"
+def sId : Bytes := [105, 100]  -- "id"
+def sExtra : Bytes := [101, 120, 116, 114, 97, 95, 97, 116, 116, 114, 105, 98, 117, 116, 101, 115]  -- "extra_attributes"
+def sScore : Bytes := [115, 99, 111, 114, 101]  -- "score"
 
 /-- `(*RedisError)(&e)` for an arbitrary element: its Error() text -/
 def rawRedisErr (e : Msg) : String :=
